@@ -176,6 +176,13 @@ use rooc::model_transformer::VariableKind;
 use rooc::pre_model::PreModel;
 use rooc::{IterableSet, OptimizationType, PreConstraint};
 
+/// Contract of `Display for Primitive::Number` (number tokens are opaque in the Lean printer): Rust's shortest
+/// round-trip `f64` Display, except that an integral value outside the i64 range keeps a fractional part (`1e20` is
+/// written `100000000000000000000.0`), because the grammar reads an all-digit literal through i64.
+pub fn number_text(v: f64) -> String {
+    if v.is_finite() && v.fract() == 0.0 && v.abs() >= 9223372036854775808.0 { format!("{}.0", v) } else { v.to_string() }
+}
+
 /// full `PreExp` (every variant) with numbers as Rust displays them
 pub fn pre_exp_full(e: &PreExp) -> String {
     let list = |head: &str, name: &str, es: &[PreExp]| {
@@ -188,7 +195,7 @@ pub fn pre_exp_full(e: &PreExp) -> String {
         PreExp::Primitive(p) => match p.value() {
             Primitive::Integer(i) if *i >= 0 => format!("(int {})", i),
             Primitive::PositiveInteger(i) => format!("(int {})", i),
-            Primitive::Number(n) => format!("(num {})", sx::q(&n.to_string())),
+            Primitive::Number(n) => format!("(num {})", sx::q(&number_text(*n))),
             Primitive::Boolean(b) => format!("(bool {})", b),
             Primitive::String(s) => format!("(str {})", sx::q(s)),
             other => format!("(prim {})", sx::q(&other.to_string())),
